@@ -1,5 +1,386 @@
 package main
 
-import "go/token"
+// Translation of moq's imperative glue (main.run, Mocker.Mock, Mocker.format, …) into the
+// mini-IR of lean/MoqModel/Glue.lean, and whole-program facts (file-system / process call
+// sites, reads of Config fields, calls on the io.Writer handed to Mock).
 
-func genGlue(fset *token.FileSet, repo, out string) {}
+import (
+	"fmt"
+	"go/ast"
+	"go/parser"
+	"go/printer"
+	"go/token"
+	"os"
+	"path/filepath"
+	"sort"
+	"strconv"
+	"strings"
+)
+
+func src(fset *token.FileSet, n ast.Node) string {
+	var b strings.Builder
+	printer.Fprint(&b, fset, n)
+	return b.String()
+}
+
+type glueGen struct {
+	fset *token.FileSet
+	bad  []string
+}
+
+func (g *glueGen) exprs(es []ast.Expr) string {
+	parts := make([]string, len(es))
+	for i, e := range es {
+		parts[i] = g.expr(e)
+	}
+	return "[" + strings.Join(parts, ", ") + "]"
+}
+
+func (g *glueGen) expr(e ast.Expr) string {
+	switch e := e.(type) {
+	case *ast.Ident:
+		return ".id " + leanStr(e.Name)
+	case *ast.SelectorExpr:
+		return fmt.Sprintf(".sel (%s) %s", g.expr(e.X), leanStr(e.Sel.Name))
+	case *ast.CallExpr:
+		ell := "false"
+		if e.Ellipsis.IsValid() {
+			ell = "true"
+		}
+		return fmt.Sprintf(".call (%s) %s %s", g.expr(e.Fun), g.exprs(e.Args), ell)
+	case *ast.BasicLit:
+		if e.Kind == token.STRING {
+			if s, ok := strLit(e); ok {
+				return ".str " + leanStr(s)
+			}
+		}
+		if e.Kind == token.INT {
+			if n, err := strconv.ParseUint(e.Value, 10, 32); err == nil {
+				return fmt.Sprintf(".int %d", n)
+			}
+		}
+		return ".lit " + leanStr(e.Value)
+	case *ast.UnaryExpr:
+		return fmt.Sprintf(".un %s (%s)", leanStr(e.Op.String()), g.expr(e.X))
+	case *ast.BinaryExpr:
+		return fmt.Sprintf(".bin %s (%s) (%s)", leanStr(e.Op.String()), g.expr(e.X), g.expr(e.Y))
+	case *ast.ParenExpr:
+		return g.expr(e.X)
+	case *ast.StarExpr:
+		return fmt.Sprintf(".un %s (%s)", leanStr("*"), g.expr(e.X))
+	case *ast.IndexExpr:
+		return fmt.Sprintf(".idx (%s) (%s)", g.expr(e.X), g.expr(e.Index))
+	case *ast.SliceExpr:
+		lo, hi := ".lit "+leanStr(""), ".lit "+leanStr("")
+		if e.Low != nil {
+			lo = g.expr(e.Low)
+		}
+		if e.High != nil {
+			hi = g.expr(e.High)
+		}
+		return fmt.Sprintf(".slice (%s) (%s) (%s)", g.expr(e.X), lo, hi)
+	case *ast.CompositeLit:
+		// struct / slice literal: type text and the element expressions (keys kept as text)
+		var elts []string
+		for _, el := range e.Elts {
+			if kv, ok := el.(*ast.KeyValueExpr); ok {
+				elts = append(elts, fmt.Sprintf("(%s, %s)", leanStr(src(g.fset, kv.Key)), g.expr(kv.Value)))
+			} else {
+				elts = append(elts, fmt.Sprintf("(%s, %s)", leanStr(""), g.expr(el)))
+			}
+		}
+		ty := ""
+		if e.Type != nil {
+			ty = src(g.fset, e.Type)
+		}
+		return fmt.Sprintf(".comp %s [%s]", leanStr(ty), strings.Join(elts, ", "))
+	case *ast.TypeAssertExpr:
+		return fmt.Sprintf(".assert (%s) %s", g.expr(e.X), leanStr(src(g.fset, e.Type)))
+	case *ast.FuncLit:
+		return ".lit " + leanStr("func-literal")
+	case *ast.ArrayType, *ast.MapType, *ast.ChanType, *ast.FuncType, *ast.InterfaceType, *ast.StructType, *ast.Ellipsis:
+		return ".lit " + leanStr("type "+src(g.fset, e))
+	}
+	g.bad = append(g.bad, fmt.Sprintf("unsupported expression %T: %s", e, src(g.fset, e)))
+	return ".lit " + leanStr("<unsupported "+src(g.fset, e)+">")
+}
+
+func (g *glueGen) stmts(ss []ast.Stmt, indent string) string {
+	if len(ss) == 0 {
+		return "[]"
+	}
+	parts := make([]string, len(ss))
+	for i, s := range ss {
+		parts[i] = g.stmt(s, indent+"  ")
+	}
+	return "[\n" + indent + "  " + strings.Join(parts, ",\n"+indent+"  ") + "]"
+}
+
+func (g *glueGen) block(b *ast.BlockStmt, indent string) string {
+	if b == nil {
+		return "[]"
+	}
+	return g.stmts(b.List, indent)
+}
+
+func (g *glueGen) stmt(s ast.Stmt, indent string) string {
+	switch s := s.(type) {
+	case *ast.AssignStmt:
+		def := "false"
+		if s.Tok == token.DEFINE {
+			def = "true"
+		}
+		if s.Tok != token.DEFINE && s.Tok != token.ASSIGN {
+			return fmt.Sprintf(".opAssign %s %s %s", leanStr(s.Tok.String()), g.exprs(s.Lhs), g.exprs(s.Rhs))
+		}
+		return fmt.Sprintf(".assign %s %s %s", def, g.exprs(s.Lhs), g.exprs(s.Rhs))
+	case *ast.ExprStmt:
+		return ".expr (" + g.expr(s.X) + ")"
+	case *ast.ReturnStmt:
+		return ".ret " + g.exprs(s.Results)
+	case *ast.IfStmt:
+		init := "[]"
+		if s.Init != nil {
+			init = "[" + g.stmt(s.Init, indent) + "]"
+		}
+		els := "[]"
+		switch e := s.Else.(type) {
+		case *ast.BlockStmt:
+			els = g.block(e, indent)
+		case *ast.IfStmt:
+			els = "[" + g.stmt(e, indent) + "]"
+		}
+		return fmt.Sprintf(".ifs %s (%s) %s %s", init, g.expr(s.Cond), g.block(s.Body, indent), els)
+	case *ast.RangeStmt:
+		k, v := "", ""
+		if id, ok := s.Key.(*ast.Ident); ok {
+			k = id.Name
+		}
+		if id, ok := s.Value.(*ast.Ident); ok {
+			v = id.Name
+		}
+		return fmt.Sprintf(".forRange %s %s (%s) %s", leanStr(k), leanStr(v), g.expr(s.X), g.block(s.Body, indent))
+	case *ast.ForStmt:
+		init, post := "[]", "[]"
+		if s.Init != nil {
+			init = "[" + g.stmt(s.Init, indent) + "]"
+		}
+		if s.Post != nil {
+			post = "[" + g.stmt(s.Post, indent) + "]"
+		}
+		cond := ".lit " + leanStr("true")
+		if s.Cond != nil {
+			cond = g.expr(s.Cond)
+		}
+		return fmt.Sprintf(".forLoop %s (%s) %s %s", init, cond, post, g.block(s.Body, indent))
+	case *ast.IncDecStmt:
+		return fmt.Sprintf(".opAssign %s [%s] []", leanStr(s.Tok.String()), g.expr(s.X))
+	case *ast.DeclStmt:
+		if gd, ok := s.Decl.(*ast.GenDecl); ok && gd.Tok == token.VAR {
+			var parts []string
+			for _, sp := range gd.Specs {
+				vs := sp.(*ast.ValueSpec)
+				ty := ""
+				if vs.Type != nil {
+					ty = src(g.fset, vs.Type)
+				}
+				for i, n := range vs.Names {
+					val := "[]"
+					if i < len(vs.Values) {
+						val = "[" + g.expr(vs.Values[i]) + "]"
+					}
+					parts = append(parts, fmt.Sprintf(".varDecl %s %s %s", leanStr(n.Name), leanStr(ty), val))
+				}
+			}
+			if len(parts) == 1 {
+				return parts[0]
+			}
+			return ".block [" + strings.Join(parts, ", ") + "]"
+		}
+	case *ast.SwitchStmt:
+		tag := ".lit " + leanStr("true")
+		if s.Tag != nil {
+			tag = g.expr(s.Tag)
+		}
+		var cases []string
+		for _, c := range s.Body.List {
+			cc := c.(*ast.CaseClause)
+			cases = append(cases, fmt.Sprintf("(%s, %s)", g.exprs(cc.List), g.stmts(cc.Body, indent)))
+		}
+		if s.Init != nil {
+			g.bad = append(g.bad, "switch with init statement")
+		}
+		return fmt.Sprintf(".switch (%s) [%s]", tag, strings.Join(cases, ", "))
+	case *ast.BlockStmt:
+		return ".block " + g.block(s, indent)
+	case *ast.DeferStmt:
+		return ".deferS (" + g.expr(s.Call) + ")"
+	case *ast.BranchStmt:
+		return ".branch " + leanStr(s.Tok.String())
+	case *ast.GoStmt:
+		return ".goS (" + g.expr(s.Call) + ")"
+	}
+	g.bad = append(g.bad, fmt.Sprintf("unsupported statement %T: %s", s, src(g.fset, s)))
+	return ".opaque " + leanStr(src(g.fset, s))
+}
+
+// funcDecl finds a top-level function or method (recv "" = plain function).
+func funcDecl(f *ast.File, recv, name string) *ast.FuncDecl {
+	if f == nil {
+		return nil
+	}
+	for _, d := range f.Decls {
+		fd, ok := d.(*ast.FuncDecl)
+		if !ok || fd.Name.Name != name {
+			continue
+		}
+		r := ""
+		if fd.Recv != nil && len(fd.Recv.List) == 1 {
+			t := fd.Recv.List[0].Type
+			if st, ok := t.(*ast.StarExpr); ok {
+				t = st.X
+			}
+			if id, ok := t.(*ast.Ident); ok {
+				r = id.Name
+			}
+		}
+		if r == recv {
+			return fd
+		}
+	}
+	return nil
+}
+
+func genGlue(fset *token.FileSet, repo, out string) {
+	g := &glueGen{fset: fset}
+	mainGo := parseFile(fset, filepath.Join(repo, "main.go"))
+	moqGo := parseFile(fset, filepath.Join(repo, "pkg/moq/moq.go"))
+	fmtGo := parseFile(fset, filepath.Join(repo, "pkg/moq/formatter.go"))
+	regGo := parseFile(fset, filepath.Join(repo, "internal/registry/registry.go"))
+	var b strings.Builder
+	b.WriteString("import MoqModel.GlueIR\n/- REGENERATED from /repo by extract/ on every run – do not edit. -/\nnamespace Moq.Generated\nopen Moq.Glue\n\n")
+	emit := func(leanName string, f *ast.File, recv, name string) {
+		fd := funcDecl(f, recv, name)
+		if fd == nil || fd.Body == nil {
+			failf("function %s.%s not found", recv, name)
+			fmt.Fprintf(&b, "def %s : List GS := []\n\n", leanName)
+			return
+		}
+		var params []string
+		for _, fl := range fd.Type.Params.List {
+			for _, n := range fl.Names {
+				params = append(params, n.Name)
+			}
+		}
+		fmt.Fprintf(&b, "def %sParams : List Str := %s\n", leanName, leanStrList(params))
+		fmt.Fprintf(&b, "def %s : List GS := %s\n\n", leanName, g.block(fd.Body, ""))
+	}
+	emit("runProg", mainGo, "", "run")
+	emit("mainProg", mainGo, "", "main")
+	emit("mockProg", moqGo, "Mocker", "Mock")
+	emit("formatProg", moqGo, "Mocker", "format")
+	emit("newProg", moqGo, "", "New")
+	emit("gofmtProg", fmtGo, "", "gofmt")
+	emit("goimportsProg", fmtGo, "", "goimports")
+	emit("lookupProg", regGo, "Registry", "LookupInterface")
+	emit("registryNewProg", regGo, "", "New")
+	emit("parseNameProg", moqGo, "", "parseInterfaceName")
+	for _, m := range g.bad {
+		failf("glue: %s", m)
+	}
+
+	// whole-program facts over the non-test, non-example packages of moq itself
+	type site struct{ file, fn, call string }
+	var fsCalls, nondet []site
+	cfgReads := map[string][]string{}
+	dirs := []string{".", "pkg/moq", "internal/registry", "internal/template"}
+	watchPkgs := map[string]bool{"os": true, "ioutil": true, "exec": true, "syscall": true, "fs": true, "filepath": false}
+	nondetPkgs := map[string]bool{"time": true, "rand": true}
+	for _, d := range dirs {
+		ents, err := os.ReadDir(filepath.Join(repo, d))
+		if err != nil {
+			failf("readdir %s: %v", d, err)
+			continue
+		}
+		for _, ent := range ents {
+			if ent.IsDir() || !strings.HasSuffix(ent.Name(), ".go") || strings.HasSuffix(ent.Name(), "_test.go") {
+				continue
+			}
+			rel := filepath.Join(d, ent.Name())
+			f, err := parser.ParseFile(fset, filepath.Join(repo, rel), nil, 0)
+			if err != nil {
+				failf("parse %s: %v", rel, err)
+				continue
+			}
+			// local names of imported packages
+			imp := map[string]string{}
+			for _, im := range f.Imports {
+				p := strings.Trim(im.Path.Value, `"`)
+				n := p[strings.LastIndex(p, "/")+1:]
+				if im.Name != nil {
+					n = im.Name.Name
+				}
+				imp[n] = p
+			}
+			for _, decl := range f.Decls {
+				fd, ok := decl.(*ast.FuncDecl)
+				if !ok || fd.Body == nil {
+					continue
+				}
+				fname := fd.Name.Name
+				ast.Inspect(fd.Body, func(n ast.Node) bool {
+					sel, ok := n.(*ast.SelectorExpr)
+					if !ok {
+						return true
+					}
+					if id, ok := sel.X.(*ast.Ident); ok {
+						if p, isPkg := imp[id.Name]; isPkg {
+							base := p[strings.LastIndex(p, "/")+1:]
+							if watchPkgs[base] || p == "io/ioutil" || p == "os/exec" {
+								fsCalls = append(fsCalls, site{rel, fname, p + "." + sel.Sel.Name})
+							}
+							if nondetPkgs[base] || (p == "os" && (sel.Sel.Name == "Getenv" || sel.Sel.Name == "Getpid" || sel.Sel.Name == "Environ" || sel.Sel.Name == "Hostname")) {
+								nondet = append(nondet, site{rel, fname, p + "." + sel.Sel.Name})
+							}
+						}
+					}
+					// reads of Config fields: anything.cfg.Field
+					if inner, ok := sel.X.(*ast.SelectorExpr); ok && inner.Sel.Name == "cfg" {
+						cfgReads[sel.Sel.Name] = append(cfgReads[sel.Sel.Name], rel+":"+fname)
+					}
+					return true
+				})
+			}
+		}
+	}
+	fmt.Fprintf(&b, "/-- every reference into os, io/ioutil, os/exec, syscall, io/fs in moq's own non-test code: (file, function, symbol) -/\ndef fsCalls : List (Str × Str × Str) := [")
+	for i, s := range fsCalls {
+		if i > 0 {
+			b.WriteString(",\n  ")
+		}
+		fmt.Fprintf(&b, "(%s, %s, %s)", leanStr(s.file), leanStr(s.fn), leanStr(s.call))
+	}
+	b.WriteString("]\n\n")
+	fmt.Fprintf(&b, "/-- references to sources of nondeterminism (time, math/rand, environment) -/\ndef nondetCalls : List (Str × Str × Str) := [")
+	for i, s := range nondet {
+		if i > 0 {
+			b.WriteString(", ")
+		}
+		fmt.Fprintf(&b, "(%s, %s, %s)", leanStr(s.file), leanStr(s.fn), leanStr(s.call))
+	}
+	b.WriteString("]\n\n")
+	var fields []string
+	for k := range cfgReads {
+		fields = append(fields, k)
+	}
+	sort.Strings(fields)
+	b.WriteString("/-- where each Config field is read (`x.cfg.Field`): field ↦ file:function list -/\ndef cfgReads : List (Str × List Str) := [")
+	for i, k := range fields {
+		if i > 0 {
+			b.WriteString(",\n  ")
+		}
+		fmt.Fprintf(&b, "(%s, %s)", leanStr(k), leanStrList(cfgReads[k]))
+	}
+	b.WriteString("]\n\nend Moq.Generated\n")
+	writeFile(filepath.Join(out, "Glue.lean"), b.String())
+}
